@@ -11,6 +11,9 @@ INVARIANTS
   PrefixAgnostic
   EveryKey
   DigestByMessage
+  FieldsGovern
+  AnnouncesConfigured
+  WrapsAsAnnounced
   CipherValueLength
   Total
   RejectsMalformed
